@@ -91,6 +91,7 @@ fn check(src: &str, what: &str) -> Result<(), String> {
 }
 
 pub fn run(src: &str, what: &str) -> Outcome {
+    crate::note_case("c17_sets", json!({"grammar": src, "what": what}));
     let expected = "FIRST/epsilon/FOLLOW/has_path equal the textbook least fixed points, promptly".to_string();
     let (tx, rx) = mpsc::channel();
     let (s, w) = (src.to_string(), what.to_string());
@@ -225,6 +226,7 @@ fn check_costs(src: &str, costs: &[u8]) -> Result<(), String> {
 }
 
 pub fn run_costs(src: &str, costs: &[u8]) -> Outcome {
+    crate::note_case("c17_costs", json!({"grammar": src, "costs": costs}));
     let expected = "min/max sentence costs equal the true extremes, minimal sentences are derivable and have that cost, promptly".to_string();
     let (tx, rx) = mpsc::channel();
     let (s, c) = (src.to_string(), costs.to_vec());
